@@ -69,8 +69,6 @@ def split_steps(path):
                 k += 1
             if not closed:
                 return NOTFOUND        # unbalanced quote
-            if not out:
-                return UNSPEC          # empty quoted title
             if k < n and path[k:k + 1] != b'|':
                 return UNSPEC          # characters glued to the closing quote
             steps.append((name, bytes(out), True))
